@@ -311,3 +311,68 @@ contract(
     ],
     props=["C06"],
 )
+
+# --- find_directory_hash_entries_for_path (C09): `verify -dh` compares the directory against the entries this function returns.
+# Completeness is what "with respect to all recorded generations" needs: every hash entry of every directory record of the path,
+# in EVERY generation, is in the result - and for the root ('.') every root hash entry of every generation as well; nothing is
+# dropped by a later generation.  The generation tags only feed the log lines.
+def DMH(g):
+    return MH("self", g, "relative_path")
+
+
+def dir_complete(bound, lst):
+    return (f"all({DMH('g')} is None or not {DMH('g')}.is_directory or all(e in {lst} for e in {DMH('g')}.hash_entries)"
+            f" for g in range({bound}))")
+
+
+RMH = "self.hash_lists[{g}].process_info.root_media_hash"
+
+
+def root_complete(bound, lst):
+    r = RMH.format(g="g")
+    return f"all({r} is None or all(e in {lst} for e in {r}.hash_entries) for g in range({bound}))"
+
+
+contract(
+    "ascmhl.history.MHLHistory.find_directory_hash_entries_for_path",
+    slices=4,
+    params={"relative_path": "str"},
+    returns="list[MHLHashEntry]",
+    locals={"directory_hash_entries": "list[MHLHashEntry]"},
+    modifies=["*.temp_generation_number", "*.temp_is_root_folder"],
+    ensures=[
+        dir_complete("len(self.hash_lists)", "result"),
+        "relative_path != '.' or " + root_complete("len(self.hash_lists)", "result"),
+        # file records contribute nothing; with no directory record and no root hash anywhere the result is empty
+        f"not (all({DMH('g')} is None or not {DMH('g')}.is_directory for g in range(len(self.hash_lists)))"
+        f" and (relative_path != '.' or all({RMH.format(g='g')} is None for g in range(len(self.hash_lists))))) or len(result) == 0",
+    ],
+    loops={
+        0: Loop(invariant=[
+            dir_complete("_i", "directory_hash_entries"),
+            f"not all({DMH('g')} is None or not {DMH('g')}.is_directory for g in range(_i)) or len(directory_hash_entries) == 0",
+        ]),
+        1: Loop(invariant=[
+            dir_complete("_i0", "directory_hash_entries"),
+            f"not all({DMH('g')} is None or not {DMH('g')}.is_directory for g in range(_i0)) or len(directory_hash_entries) == 0",
+            "media_hash == self.hash_lists[_i0].media_hashes_path_map.get(relative_path)",
+            "media_hash is not None and media_hash.is_directory",
+            "hash_list == self.hash_lists[_i0]",
+        ]),
+        2: Loop(invariant=[
+            dir_complete("len(self.hash_lists)", "directory_hash_entries"),
+            root_complete("_i", "directory_hash_entries"),
+            f"not (all({DMH('g')} is None or not {DMH('g')}.is_directory for g in range(len(self.hash_lists)))"
+            f" and all({RMH.format(g='g')} is None for g in range(_i))) or len(directory_hash_entries) == 0",
+        ]),
+        3: Loop(invariant=[
+            dir_complete("len(self.hash_lists)", "directory_hash_entries"),
+            root_complete("_i2", "directory_hash_entries"),
+            f"not (all({DMH('g')} is None or not {DMH('g')}.is_directory for g in range(len(self.hash_lists)))"
+            f" and all({RMH.format(g='g')} is None for g in range(_i2))) or len(directory_hash_entries) == 0",
+            "hash_list == self.hash_lists[_i2]",
+            "hash_list.process_info.root_media_hash is not None",
+        ]),
+    },
+    props=["C09"],
+)
